@@ -273,9 +273,9 @@ func (m *Msg) class(ctcp string) string {
 // ---- generators ----
 
 var (
-	paramAlphabet = []string{"a", "b", "Z", "0", "9", "#", "&", "+", "!", ":", "=", ";", "@", "\\", "\x01", "\x02", "\x7f", "-", "_", "[", "]", "{", "}", "|", "^", "~", "*", "?", ".", ",", "é", "日", "\x1f", "/"}
+	paramAlphabet = []string{"a", "b", "Z", "0", "9", "#", "&", "+", "!", ":", "=", ";", "@", "\\", "\x01", "\x02", "\x7f", "-", "_", "[", "]", "{", "}", "|", "^", "~", "*", "?", ".", ",", "é", "日", "\x1f", "/", "\xe9", "\xff", "\x80\x80", "\xc3", "\xa0"}
 	trailAlphabet = append(append([]string{}, paramAlphabet...), " ", " ", " :", "  ", "\t")
-	valAlphabet   = []string{"a", "b", "1", "\\", "\\", ";", " ", "\r", "\n", "=", ":", "s", "n", "r", "\\s", "\\:", "\\\\", "/", "é", "\x01", ",", "@"}
+	valAlphabet   = []string{"a", "b", "1", "\\", "\\", ";", " ", "\r", "\n", "=", ":", "s", "n", "r", "\\s", "\\:", "\\\\", "/", "é", "\x01", ",", "@", "\xe9", "\xff\xfe", "\xc3"}
 	keyAlphabet   = "abcdefghijklmnopqrstuvwxyz0123456789-"
 	verbPool      = []string{"PRIVMSG", "NOTICE", "privmsg", "Notice", "JOIN", "PART", "MODE", "mode", "TOPIC", "KICK", "QUIT", "NICK", "PING", "PONG", "001", "002", "005", "324", "332", "352", "353", "366", "433", "903", "671", "311", "ERROR", "INVITE", "WALLOPS", "CAP", "AUTHENTICATE", "ACTION", "CTCP", "CTCPREPLY", "FOO", "x", "Ab"}
 	nickPool      = []string{"nick", "a", "Z[]", "n-1", "{x}", "me", "bob`", "_x_"}
